@@ -3,7 +3,9 @@
 use crate::core::*;
 use crate::enc::*;
 use crate::guard::*;
+#[cfg(feature = "full")]
 use crate::props::c01;
+#[cfg(any(feature = "full", feature = "v-aws"))]
 use nexrad_data::aws::realtime::Chunk;
 use nexrad_data::volume::{split_compressed_records, File, Record};
 use rayon::prelude::*;
@@ -42,13 +44,16 @@ fn len_class(n: usize) -> &'static str {
 fn record_ops(r: &Record) -> usize {
     let mut n = r.data().len();
     n += r.compressed() as usize;
-    if let Ok(d) = r.decompress() {
-        n += d.data().len();
-        n += d.compressed() as usize;
-        let _ = d.messages();
-        let _ = format!("{:?}", d);
+    #[cfg(feature = "full")]
+    {
+        if let Ok(d) = r.decompress() {
+            n += d.data().len();
+            n += d.compressed() as usize;
+            let _ = d.messages();
+            let _ = format!("{:?}", d);
+        }
+        let _ = r.messages().map(|m| m.len());
     }
-    let _ = r.messages().map(|m| m.len());
     n += format!("{:?}", r).len();
     n
 }
@@ -78,27 +83,37 @@ pub fn check_bytes(ctx: &Ctx, bytes: &[u8], origin: &str, st: &mut Stats) -> usi
     };
     let file = File::new(owned(bytes));
     one("File::records", &mut || file.records().len());
+    #[cfg(feature = "full")]
     one("File::header", &mut || file.header().is_ok() as usize);
+    #[cfg(feature = "full")]
     one("File::scan", &mut || file.scan().map(|s| s.sweeps().len()).unwrap_or(0));
     one("File::debug", &mut || format!("{:?}", file).len());
     one("split_compressed_records", &mut || split_compressed_records(bytes).len());
     let rec = Record::new(owned(bytes));
     one("Record::data", &mut || rec.data().len());
     one("Record::compressed", &mut || rec.compressed() as usize);
+    #[cfg(feature = "full")]
     one("Record::decompress", &mut || rec.decompress().map(|r| r.data().len()).unwrap_or(0));
+    #[cfg(feature = "full")]
     one("Record::messages", &mut || rec.messages().map(|m| m.len()).unwrap_or(0));
     one("Record::debug", &mut || format!("{:?}", rec).len());
     let slice_rec = Record::from_slice(bytes);
     one("Record::debug", &mut || record_ops(&slice_rec));
+    #[cfg(any(feature = "full", feature = "v-aws"))]
     one("Chunk::new", &mut || Chunk::new(owned(bytes)).is_ok() as usize);
+    #[cfg(any(feature = "full", feature = "v-aws"))]
     if let Caught::Ret(Ok(ch)) = guarded(|| Chunk::new(owned(bytes))) {
         one("Chunk::data", &mut || ch.data().len());
         one("Chunk::debug", &mut || format!("{:?}", ch).len());
         one("Chunk::inner_ops", &mut || match &ch {
             Chunk::Start(f) => {
+                #[allow(unused_mut)]
                 let mut n = f.records().iter().map(record_ops).sum::<usize>();
-                n += f.header().is_ok() as usize;
-                n += f.scan().is_ok() as usize;
+                #[cfg(feature = "full")]
+                {
+                    n += f.header().is_ok() as usize;
+                    n += f.scan().is_ok() as usize;
+                }
                 n
             }
             Chunk::IntermediateOrEnd(r) => record_ops(r),
@@ -235,15 +250,27 @@ pub fn run(ctx: &'static Ctx) -> (&'static str, Value, Vec<&'static str>) {
 
     // (3) every truncation point of valid volumes and chunks
     let mut containers: Vec<(String, Vec<u8>)> = Vec::new();
-    let vol_cases = c01::cases(false);
-    let picks: Vec<usize> = (0..12).map(|k| (k * 173 + 5) % vol_cases.len()).collect();
-    for (k, i) in picks.iter().enumerate() {
-        let c = &vol_cases[*i];
-        if c.gates > 64 {
-            continue;
+    #[cfg(feature = "full")]
+    {
+        let vol_cases = c01::cases(false);
+        let picks: Vec<usize> = (0..12).map(|k| (k * 173 + 5) % vol_cases.len()).collect();
+        for (k, i) in picks.iter().enumerate() {
+            let c = &vol_cases[*i];
+            if c.gates > 64 {
+                continue;
+            }
+            let bytes = c01::volume_bytes(c);
+            containers.push((format!("volume#{k}"), bytes));
         }
-        let bytes = c01::volume_bytes(c);
-        containers.push((format!("volume#{k}"), bytes));
+    }
+    #[cfg(not(feature = "full"))]
+    {
+        // build-configuration variants have no volume generator (it needs the model conversion):
+        // two- and three-record volumes built from the reference message encoder instead
+        for k in 0..3usize {
+            let recs: Vec<Vec<u8>> = (0..2 + k).map(|r| record_bz(&(0..2).flat_map(|i| crate::props::c03::message_bytes([7usize, 0, 8][(r + k) % 3], i)).collect::<Vec<u8>>(), 9, r % 2 == 1)).collect();
+            containers.push((format!("volume#{k}"), volume(&VolHeader::basic(), &recs)));
+        }
     }
     // chunks: start chunk = header + one record; intermediate = one record
     for (k, sym) in [7usize, 8, 0, 1].iter().enumerate() {
@@ -254,7 +281,9 @@ pub fn run(ctx: &'static Ctx) -> (&'static str, Value, Vec<&'static str>) {
     }
     // (3b) structurally valid but out-of-spec volumes: counts beyond every documented maximum
     // (more than 720 radials in one sweep, more than 255 sweeps, 70 000 radials, empty records)
+    #[allow(unused_mut)]
     let mut s4b = Stats::new();
+    #[cfg(feature = "full")]
     {
         let mk = |runs: Vec<(u8, u16)>, per_record: usize, level: u32, moments: u8| {
             let total: usize = runs.iter().map(|r| r.1 as usize).sum();
@@ -341,7 +370,10 @@ pub fn run(ctx: &'static Ctx) -> (&'static str, Value, Vec<&'static str>) {
             let mut st = Stats::new();
             let n = check_bytes(ctx, &hin[i], "history", &mut st);
             let f = File::new(hin[i].clone());
+            #[cfg(feature = "full")]
             let r = guarded(|| (f.records().len(), f.scan().is_ok(), Record::new(hin[i].clone()).decompress().map(|d| d.data().len()).ok()));
+            #[cfg(not(feature = "full"))]
+            let r = guarded(|| (f.records().len(), Record::new(hin[i].clone()).compressed()));
             format!("{n}|{:?}", r)
         },
         |i| format!("input#{i}({} bytes)", hin[i].len()),
